@@ -182,3 +182,36 @@ class ReachingDefs:
 
 def strip_await(e: ast.expr) -> ast.expr:
     return e.value if isinstance(e, ast.Await) else e
+
+
+def provenance(rd: ReachingDefs, expr: ast.expr, at: t.Union[int, ast.AST], depth: int = 0) -> str:
+    """Normal form of an expression in terms of parameters / self / globals only: every local name with a single
+    reaching definition is replaced (recursively) by the expression that defines it, so that the result does not
+    depend on how locals are named or on how many intermediate variables are used."""
+    if depth > 12:
+        return unparse(expr)
+
+    class Sub(ast.NodeTransformer):
+        def visit_Name(self, node: ast.Name) -> ast.AST:
+            if not isinstance(node.ctx, ast.Load) or node.id in rd.func.params:
+                return node
+            ds = rd.reaching(node.id, at)
+            if len(ds) != 1 or ds[0].value is None or ds[0].kind not in ("assign",):
+                return node
+            d = ds[0]
+            v: ast.expr = d.value.value if isinstance(d.value, ast.Await) else d.value  # type: ignore[assignment]
+            inner = ast.parse(provenance(rd, v, d.nid, depth + 1), mode="eval").body
+            if d.index is not None:
+                return ast.Subscript(value=inner, slice=ast.Constant(value=d.index), ctx=ast.Load())
+            return inner
+
+        def visit_Await(self, node: ast.Await) -> ast.AST:
+            return self.visit(node.value)
+
+    import copy
+
+    try:
+        new = Sub().visit(copy.deepcopy(expr))
+        return unparse(ast.fix_missing_locations(new))
+    except (SyntaxError, RecursionError):
+        return unparse(expr)
